@@ -176,8 +176,35 @@ def extract_one(kind, path, ty):
     return f
 
 
+def extract_ws_control():
+    """Arms of `decode_websocket_frame`: which message kinds are skipped (`Ok(None)`) and which end the
+    connection (`Err`)."""
+    src = test_mod_cut(strip(read("src/websocket_client.rs")))
+    body = fn_body(src, "decode_websocket_frame")
+    out = {}
+    for m in re.finditer(r"((?:WsMessage::\w+\s*\([^)]*\)\s*\|?\s*)+)=>\s*(Ok\s*\(\s*None\s*\)|Err\s*\(|Message::from_slice_exact)", body):
+        act = "ignore" if m.group(2).startswith("Ok") else ("fail" if m.group(2).startswith("Err") else "decode")
+        for k in re.findall(r"WsMessage::(\w+)", m.group(1)):
+            out[k] = act
+    if "Binary" not in out:
+        raise ExtractError("decode_websocket_frame: no recognised arm for Binary")
+    # an arm in a form not recognised is read pessimistically: a Close/Text that might not end the
+    # connection, a Ping/Pong that might
+    for k, worst in (("Close", "ignore"), ("Text", "ignore"), ("Ping", "fail"), ("Pong", "fail")):
+        out.setdefault(k, worst)
+    if out["Binary"] != "decode":
+        raise ExtractError("decode_websocket_frame: Binary is not decoded")
+    # the reader must act on the result: Ok(None) => continue, Err => fail_all_pending (checked by extract_one)
+    loop = fn_body(src, "spawn_response_loop")
+    if not re.search(r"Ok\s*\(\s*None\s*\)\s*=>\s*continue", loop):
+        raise ExtractError("ws reader: Ok(None) does not continue")
+    return out
+
+
 def extract():
-    return {kind: extract_one(kind, path, ty) for kind, path, ty in FILES}
+    f = {kind: extract_one(kind, path, ty) for kind, path, ty in FILES}
+    f["wsControl"] = extract_ws_control()
+    return f
 
 
 def _b(x):
@@ -198,7 +225,12 @@ def render(facts):
         out.append(f"    timeoutRemoves := {_b(f['timeoutRemoves'])}, cancelRemoves := {_b(f['cancelRemoves'])}, writeErrRemoves := {_b(f['writeErrRemoves'])},")
         out.append(f"    matchRemoves := {_b(f['matchRemoves'])}, readerStops := {_b(f['readerStops'])} }}")
         out.append("")
-    out += ["def all : List Cfg := [blockingCfg, asyncCfg, wsCfg]", "", "end Repe.Gen.Mux", ""]
+    wc = facts["wsControl"]
+    out += ["def all : List Cfg := [blockingCfg, asyncCfg, wsCfg]", "",
+            "/-- src/websocket_client.rs `decode_websocket_frame`: what the reader does with each non-binary message kind. -/",
+            f"def wsPing : CtlAction := .{wc['Ping']}", f"def wsPong : CtlAction := .{wc['Pong']}",
+            f"def wsClose : CtlAction := .{wc['Close']}", f"def wsText : CtlAction := .{wc['Text']}",
+            "", "end Repe.Gen.Mux", ""]
     return "\n".join(out)
 
 
